@@ -117,18 +117,21 @@ def run(run, replay=None):
     run.sample({'accepted_example_value_position': (PREFIX[:-1] + sorted((s for w, s in acc if w == 2), key=len)[-1]).decode('latin-1')})
     run.sample({'rejected_example': (PREFIX + rejects[len(rejects) // 2][1]).decode('latin-1')})
     run.sample({'catalogue_example': ID_CATALOGUE[5].decode('latin-1')})
-    can = []
-    pool = good
-    for k, c in enumerate(rng.sample(pool, min(8, len(pool)))):
-        z = copy.deepcopy(c)
-        z['canary_of'] = z['id']
-        z['id'] = 'canary-%d' % k
-        if k % 2:
-            z['end'] = 'parse'
-            z['line'] = 2
-        else:
-            z['recs'][-1]['opts'].pop()
-        can.append(z)
+    def _mk_canaries():
+        can = []
+        pool = good
+        for k, c in enumerate(rng.sample(pool, min(8, len(pool)))):
+            z = copy.deepcopy(c)
+            z['canary_of'] = z['id']
+            z['id'] = 'canary-%d' % k
+            if k % 2:
+                z['end'] = 'parse'
+                z['line'] = 2
+            else:
+                z['recs'][-1]['opts'].pop()
+            can.append(z)
+        return can
+    can = run.tolerant(_mk_canaries)
     run.judge('Trace_Reader', cases + can, cat.tables(), canary_ids=[c['id'] for c in can],
               describe=lambda c: bytes(c['file'])[len(HEAD):].decode('latin-1'))
     run.notes.update({'strings_enumerated': len(space), 'in_Acc': nacc, 'disagreements_with_Acc': disagreements,
